@@ -136,6 +136,22 @@ impl TlsRecordsParser {
     }
 }
 
+/// Read-only accessors used by external verification harnesses.
+///
+/// Only compiled with `RUSTFLAGS="--cfg tls_parser_verif"`; not part of the public API.
+#[cfg(tls_parser_verif)]
+impl TlsRecordsParser {
+    /// Current contents of the defragmentation buffer
+    pub fn verif_defrag_buffer(&self) -> &[u8] {
+        &self.record_defrag_buffer
+    }
+
+    /// Record type of the defragmentation in progress (if any)
+    pub fn verif_current_record_type(&self) -> Option<TlsRecordType> {
+        self.current_record_type
+    }
+}
+
 #[cfg(test)]
 mod tests {
     use crate::{parse_tls_raw_record, TlsMessageHandshake, TlsVersion};
